@@ -99,6 +99,20 @@ Definition ext_quality (j : json) (tid : Z) (ic : bool) : option (nat * list nat
                 | None => 1 end in
     Some (fold_left (fun (acc : nat * list nat) (kr : string * json) =>
             let reg := snd kr in
+            let in_prob := fun c : Z => match get (zstr c) courses with
+                                        | Some cj => match get "segments" cj with
+                                                     | Some sg => match get (zstr tid) sg with Some (JBool b) => b || negb ic | _ => false end
+                                                     | None => false end
+                                        | None => false end in
+            (* a participant WITH CHOICES: some entry of the choice list is a course of the problem; only those are rated, as attendee
+               (rank of the course in the original list, num_choices + 1 if not chosen) or as instructor (0) *)
+            let has_valid_choice := fun rt : json => match get "choices" rt with
+                                                     | Some (JArr l) => existsb (fun x => match x with JInt c => in_prob c | _ => false end) l
+                                                     | _ => false end in
+            let rate_attendee := fun (rt : json) (cid : Z) =>
+              if has_valid_choice rt
+              then (fst acc, (snd acc ++ [match get "choices" rt with Some (JArr l) => match position_of cid l 0 with Some p => p | None => ncho end | _ => ncho end])%list)
+              else acc in
             let is_part := match get "parts" reg with Some ps => match get (zstr part) ps with Some p => match get "status" p with Some (JInt 2) => true | _ => false end | None => false end | None => false end in
             match is_part, (match get "tracks" reg with Some ts => get (zstr tid) ts | None => None end) with
             | true, Some rt =>
@@ -124,8 +138,8 @@ Definition ext_quality (j : json) (tid : Z) (ic : bool) : option (nat * list nat
                                                                                    | _ => false end) l
                                               | _ => false end
                                            then (S (fst acc), snd acc) else acc)
-                                     else (fst acc, (snd acc ++ [match get "choices" rt with Some (JArr l) => match position_of cid l 0 with Some p => p | None => ncho end | _ => ncho end])%list)
-                  | _ => (fst acc, (snd acc ++ [match get "choices" rt with Some (JArr l) => match position_of cid l 0 with Some p => p | None => ncho end | _ => ncho end])%list)
+                                     else rate_attendee rt cid
+                  | _ => rate_attendee rt cid
                   end
                 else acc
               | _ => acc end
